@@ -8,6 +8,9 @@
 //        FormatterToText::create(mm, writer, encoding)   Output: "<id> ok:<hex bytes>"
 //   H <id> <enc> <indent:-1|n> <escapeURLs:0|1> <omitMeta:0|1> <dtsys> <dtpub> <event>*
 //        FormatterToHTML::create(...)                     Output: "<id> ok:<hex bytes>"
+//   HN <id> ... as H, but a prefix resolver is set on the formatter (FormatterListener::setPrefixResolver) that answers from the
+//        xmlns / xmlns:p attributes of the open elements (innermost first; no binding -> 0), as the XSLT engine's result
+//        namespace stack does: elements whose prefix (or the default namespace) is bound go to FormatterToXML's code
 //   Z <id> <hex sheet> <hex source> <setIndent:-|n> <setOutputEncoding:-|name> <setOmitMETATag:-|0|1> <setEscapeURLs:-|0|1> [<name>=<hex file>]*
 //        whole transformation through XalanTransformer with the API overrides; extra files are served as
 //        file:///vmem/<name> (stylesheet = file:///vmem/main.xsl)   Output: "<id> ok:<hex bytes>" | "<id> err:<status>:<hex message>"
@@ -34,6 +37,7 @@
 #include <xalanc/PlatformSupport/AttributeListImpl.hpp>
 #include <xalanc/PlatformSupport/XSLException.hpp>
 #include <xalanc/PlatformSupport/FormatterListener.hpp>
+#include <xalanc/PlatformSupport/PrefixResolver.hpp>
 #include <xalanc/XMLSupport/XalanXMLSerializerFactory.hpp>
 #include <xalanc/XMLSupport/FormatterToText.hpp>
 #include <xalanc/XMLSupport/FormatterToHTML.hpp>
@@ -133,6 +137,87 @@ static std::string run_listener(Make make, const std::vector<Event>& evs, std::s
         FormatterListener* fl = make(mm, writer);
         Del del = { fl, mm };
         replay(*fl, evs);
+        writer.flush();
+        stream.flush();
+        status = "ok";
+    }
+    catch (const xercesc::SAXException&) { status = "err:SAXException"; }
+    catch (const XSLException&) { status = "err:XSLException"; }
+    catch (const xercesc::XMLException&) { status = "err:XMLException"; }
+    catch (...) { status = "err:unknown"; }
+    out = os.str();
+    if (status == "ok") return "ok:" + hexbytes(out);
+    return status;
+}
+
+// ---- HN: the namespace declarations in scope, as a PrefixResolver
+class ScopeResolver : public PrefixResolver
+{
+public:
+    std::vector<std::vector<std::pair<XalanDOMString, XalanDOMString> > > m_frames;
+    XalanDOMString m_uri;
+    ScopeResolver() : m_frames(), m_uri(XalanMemMgrs::getDefaultXercesMemMgr()) {}
+    virtual const XalanDOMString* getNamespaceForPrefix(const XalanDOMString& prefix) const
+    {
+        for (size_t f = m_frames.size(); f-- > 0; )
+            for (size_t k = 0; k < m_frames[f].size(); ++k)
+                if (m_frames[f][k].first == prefix) return &m_frames[f][k].second;
+        return 0;
+    }
+    virtual const XalanDOMString& getURI() const { return m_uri; }
+    void push(const Event& e)
+    {
+        std::vector<std::pair<XalanDOMString, XalanDOMString> > fr;
+        for (size_t k = 0; k < e.attrs.size(); ++k) {
+            const XalanDOMString& n = e.attrs[k].first;
+            if (n.length() >= 5 && n[0] == 'x' && n[1] == 'm' && n[2] == 'l' && n[3] == 'n' && n[4] == 's') {
+                if (n.length() == 5) fr.push_back(std::make_pair(XalanDOMString(XalanMemMgrs::getDefaultXercesMemMgr()), e.attrs[k].second));
+                else if (n[5] == ':') { XalanDOMString p(XalanMemMgrs::getDefaultXercesMemMgr()); p.assign(n.c_str() + 6, n.length() - 6); fr.push_back(std::make_pair(p, e.attrs[k].second)); }
+            }
+        }
+        m_frames.push_back(fr);
+    }
+    void pop() { if (!m_frames.empty()) m_frames.pop_back(); }
+};
+
+static void replay_ns(FormatterListener& fl, const std::vector<Event>& evs, ScopeResolver& res)
+{
+    fl.setPrefixResolver(&res);
+    fl.startDocument();
+    for (size_t i = 0; i < evs.size(); ++i) {
+        const Event& e = evs[i];
+        switch (e.kind) {
+        case 'S': {
+            AttributeListImpl al(XalanMemMgrs::getDefaultXercesMemMgr());
+            for (size_t k = 0; k < e.attrs.size(); ++k)
+                al.addAttribute(e.attrs[k].first.c_str(), s_cdataType, e.attrs[k].second.c_str());
+            res.push(e);
+            fl.startElement(e.a.c_str(), al);
+            break; }
+        case 'E': fl.endElement(e.a.c_str()); res.pop(); break;
+        case 'T': fl.characters(e.a.c_str(), e.a.length()); break;
+        case 'C': fl.cdata(e.a.c_str(), e.a.length()); break;
+        case 'R': fl.charactersRaw(e.a.c_str(), e.a.length()); break;
+        case 'M': fl.comment(e.a.c_str()); break;
+        case 'P': fl.processingInstruction(e.a.c_str(), e.b.c_str()); break;
+        }
+    }
+    fl.endDocument();
+}
+
+template <class Make>
+static std::string run_listener_ns(Make make, const std::vector<Event>& evs, std::string& out)
+{
+    MemoryManager& mm = XalanMemMgrs::getDefaultXercesMemMgr();
+    std::ostringstream os;
+    std::string status;
+    try {
+        XalanStdOutputStream stream(os, mm);
+        XalanOutputStreamPrintWriter writer(stream);
+        ScopeResolver res;
+        FormatterListener* fl = make(mm, writer);
+        Del del = { fl, mm };
+        replay_ns(*fl, evs, res);
         writer.flush();
         stream.flush();
         status = "ok";
@@ -316,6 +401,11 @@ int main(int argc, char** argv)
             MakeHtml m; m.enc = t[2]; m.indent = std::atoi(t[3].c_str()); m.esc = t[4] == "1"; m.omitMeta = t[5] == "1";
             m.dtsys = t[6]; m.dtpub = t[7];
             std::cout << id << ' ' << run_listener(m, evs, bytes) << std::endl;
+        } else if (t[0] == "HN") {
+            if (t.size() < 8 || !parse_events(t, 8, evs)) { std::cout << id << " badscript" << std::endl; continue; }
+            MakeHtml m; m.enc = t[2]; m.indent = std::atoi(t[3].c_str()); m.esc = t[4] == "1"; m.omitMeta = t[5] == "1";
+            m.dtsys = t[6]; m.dtpub = t[7];
+            std::cout << id << ' ' << run_listener_ns(m, evs, bytes) << std::endl;
         } else if (t[0] == "Z") {
             transform_case(t);
         } else if (t[0] == "R") {
